@@ -36,13 +36,13 @@ def _init_jax() -> None:
 def run_generic(task: Dict[str, Any]) -> Dict[str, Any]:
     """Generic closed loop for one (property, env, config, shard)."""
     from jsim import envs, props, util
-    from jsim.core import Stats, Sys, Violation, drive, replay_violates, shrink
+    from jsim.core import Stats, Sys, Violation, construct, drive, replay_violates, shrink
 
     prop = props.get(task["prop"])
     adapter = envs.get(task["env"])
     cfg = task["cfg"]
     t0 = time.time()
-    sysm = Sys(adapter, cfg)
+    sysm = construct(Sys, adapter, cfg)
     monitors = [m for m in prop.monitors(adapter) if m.applies(adapter)]
     stats = Stats()
     rng = util.sub_rng(task["seed"], task["prop"], task["env"], cfg["id"], task["shard"])
@@ -133,10 +133,12 @@ def run_task(task: Dict[str, Any]) -> Dict[str, Any]:
         from jsim import props
 
         prop = props.get(task["prop"])
-        if prop.custom:
-            res = prop.run_task(task)
-        else:
-            res = run_generic(task)
+        from jsim.core import ConstructionRaised, construction_result
+
+        try:
+            res = prop.run_task(task) if prop.custom else run_generic(task)
+        except ConstructionRaised as ce:
+            res = construction_result(task, ce)
         return res
     except BaseException as e:  # noqa: BLE001
         return {"task": {k: task.get(k) for k in ("prop", "env", "shard")} | {"cfg": task.get("cfg", {}).get("id")},
